@@ -2,7 +2,8 @@
 
 B2: Elegant / Bmad dispatch tables regenerated from the converters' if/elif chains must equal the reviewed tables;
     the converters' continuation passes regenerated from source must be the modelled ones.
-B1: text front end (read_clean_lines, merge_delimiter_continued_lines, rpn) vs CheetahModel/Text.lean (text_corr.py).
+B1: NX drift filling (convert_lattice_to_cheetah) vs CheetahModel/Nx.lean (nx_corr.py);
+    text front end (read_clean_lines, merge_delimiter_continued_lines, rpn) vs CheetahModel/Text.lean (text_corr.py).
 F : random abstract lattices rendered in many spellings, imported, compared with a reference denotation (fals/C13.py).
 """
 from __future__ import annotations
@@ -16,7 +17,7 @@ except ImportError:  # falsifier module not present
 META = {
     "level": "proof",
     "rule": 'B2 table rows: one per element type per dialect' + ((" | falsifier: " + F.META.get("rule", "")) if F and hasattr(F, "META") else ""),
-    "modelled": 'converter dispatch (ConverterTables.lean); comment/blank/case cleaning, continuation merging, RPN reordering (Text.lean)',
+    "modelled": 'converter dispatch (ConverterTables.lean); comment/blank/case cleaning, continuation merging, RPN reordering (Text.lean); NX drift filling (Nx.lean)',
     "gap": 'partial: the statement-level regex chain, eval and line expansion are covered differentially only',
     "assumptions": ((F.META.get("assumptions", []) if F and hasattr(F, "META") else []) + []),
 }
@@ -25,6 +26,9 @@ META = {
 def run(ctx) -> None:
     from text_corr import run_text_correspondence
     run_text_correspondence(ctx, "C13", 300 if ctx.tier == "quick" else 4000)
+    if F is not None:
+        from nx_corr import run_nx_correspondence
+        run_nx_correspondence(ctx, "C13", 120 if ctx.tier == "quick" else 2000)
     if F is not None:
         F.run(ctx)
 
